@@ -169,7 +169,37 @@ def r2_release_protocol(ctx):
                   sample={"loader": ld[0].id})
 
 
+def r3_checkpoint_whole_table(ctx):
+    """slot conservation across a checkpoint: load_from_disk adopts the entry vector of the file as its slot table, so serialize must
+    write the whole slice it is given - a sub-range (trailing free slots trimmed) comes back as a smaller table"""
+    rule = "C17.R3"
+    ctx.rule(rule, "lru_file::serialize iterates over its entries parameter itself (no sub-slice / skip / take / filter between the parameter and the loop)")
+    bs = [b for b in ctx.prog.bodies.values() if b.krate == "cascette_client_storage" and b.item == "serialize" and not b.root and re.search(r"lru/lru_file\.rs$", b.file or "")]
+    if not ctx.anchor(rule, bs, "lru_file::serialize"):
+        return
+    b = bs[0]
+    ctx.saw(b)
+    params = [i for i in range(1, b.argc + 1) if "LruFileEntry" in (b.local_ty(i) or "")]
+    if not ctx.anchor(rule, params, "entries parameter of serialize"):
+        return
+    its = [c for c in b.calls if re.search(r"slice::<impl \[T\]>::iter$|\bIntoIterator>?::into_iter$", c.name) or re.search(r"\bIntoIterator>?::into_iter$", c.orig_name or "")]
+    its = [c for c in its if c.args and op_local(c.args[0]) is not None and "LruFileEntry" in (b.local_ty(op_local(c.args[0])) or "") + (b.local_ty(c.dest[0]) or "")]
+    if not ctx.anchor(rule, its, "iteration over the entries in serialize"):
+        return
+    NARROW = re.compile(r"\bIndex<.*>>?::index$|::(get|split_at|split_first|split_last|skip|take|filter|take_while|skip_while|step_by|rposition|position)$|\[T\]>::(get|split_at)")
+    for k, c in enumerate(its):
+        sl = Slice(b, [op_local(c.args[0])], transparent=True)
+        from_param = bool(sl.args & set(params))
+        narrowed = [x for x in sl.calls if NARROW.search(x.name) or NARROW.search(x.orig_name or "")]
+        fw_bad = []
+        ctx.check(from_param and not narrowed, rule, [b.id, "whole-table"], "the serialised entries are the whole slice passed in",
+                  "lru_file::serialize writes only part of the slot table it is given (%s): load_from_disk adopts the file's entry vector as the table, so after "
+                  "a checkpoint and reload the tracker has fewer slots than its capacity - it evicts while under capacity, or touch() fails with no slot" %
+                  (narrowed[0].name.split("::")[-1] if narrowed else "the loop does not start from the parameter"), c.loc())
+
+
 def run(ctx):
+    r3_checkpoint_whole_table(ctx)
     r1_conservation(ctx)
     r2_release_protocol(ctx)
 
